@@ -476,4 +476,193 @@ theorem sim_envGet {σ : Sh} {s t : St} (hR : StR σ s t) (e : Nat) (name : Stri
       simp only [Option.map]
       refine SimAt.ite' (by simp [renFn]) (fun _ => SimAt.pure hR rfl) (fun _ => hrest)
 
+/-! ### writes -/
+
+theorem StR.clearCache {σ : Sh} {s t : St} (hR : StR σ s t) :
+    StR σ { s with cache := [] } { t with cache := [] } :=
+  { hR with cache := CacheR.nil }
+
+theorem sim_functionChanged {σ : Sh} {s t : St} (hR : StR σ s t) (w : Nat) (old : Option Obj) :
+    SimAt σ (functionChanged (sh σ w) (old.map (ren σ))) (functionChanged w old) s t (fun _ _ => True) := by
+  unfold functionChanged
+  cases old with
+  | none => exact SimAt.pure hR trivial
+  | some o =>
+    simp only [Option.map, isFuncObj_ren]
+    refine SimAt.ite (fun _ => ?_) (fun _ => SimAt.pure hR trivial)
+    refine SimAt.bind (Q := fun _ _ => True) ?_ ?_
+    · refine sim_bump hR w (fun f => ⟨rfl, rfl, rfl, rfl, rfl⟩) ?_
+      intro fs ft h
+      exact ⟨by simp [h.1], h.2.1, h.2.2⟩
+    · intro _ _ s1 t1 hR1 _
+      unfold SimAt
+      rw [runM_modify, runM_modify]
+      exact ⟨hR1.clearCache, trivial⟩
+
+/-- the frame update of `create`, `update` and the reference path of `SetNoChecks` -/
+theorem sim_storeSet {σ : Sh} {s t : St} (hR : StR σ s t) (e : Nat) (name : String) {v : Obj}
+    (hnr : notRef v = true) (g' g : Frame → Frame)
+    (hg' : ∀ f, (g' f).store = setStore f.store name (ren σ v) ∧ (g' f).outer = f.outer ∧ (g' f).depth = f.depth ∧
+      (g' f).cacheKey = f.cacheKey ∧ (g' f).function = f.function ∧ (g' f).getMiss = f.getMiss ∧
+      (g' f).cantCache = f.cantCache)
+    (hg : ∀ f, (g f).store = setStore f.store name v ∧ (g f).outer = f.outer ∧ (g f).depth = f.depth ∧
+      (g f).cacheKey = f.cacheKey ∧ (g f).function = f.function ∧ (g f).getMiss = f.getMiss ∧
+      (g f).cantCache = f.cantCache)
+    (hn : ∀ fs ft : Frame, fs.depth = ft.depth → fs.numSet = ft.numSet → (g' fs).numSet = (g ft).numSet) :
+    SimAt σ (modifyFrame (sh σ e) g') (modifyFrame e g) s t (fun _ _ => True) := by
+  refine sim_modifyFrame hR e ?_
+  intro fs ft hte hfr
+  obtain ⟨a1, a2, a3, a4, a5, a6, a7⟩ := hg' fs
+  obtain ⟨b1, b2, b3, b4, b5, b6, b7⟩ := hg ft
+  refine ⟨⟨by rw [a1, b1, hfr.store, setStore_ren], by rw [a2, b2]; exact hfr.outer, by rw [a3, b3]; exact hfr.depth,
+    by rw [a4, b4]; exact hfr.cacheKey, by rw [a5, b5]; exact hfr.function, ?_⟩, ?_⟩
+  · intro h
+    obtain ⟨h1, h2, h3⟩ := hfr.counters h
+    exact ⟨by rw [a6, b6]; exact h1, by rw [a7, b7]; exact h2, hn fs ft hfr.depth h3⟩
+  · have := hR.dec e ft hte
+    refine ⟨by rw [b2]; exact this.1, ?_⟩
+    rw [b1]
+    intro k e' n' hm
+    rcases mem_setStore hm with h1 | h1
+    · exact this.2 k e' n' h1
+    · subst h1; simp [notRef] at hnr
+
+theorem sim_envCreate {σ : Sh} {s t : St} (hR : StR σ s t) (e : Nat) (name : String) (val : Obj) :
+    SimAt σ (envCreate (sh σ e) name (ren σ val)) (envCreate e name val) s t (QO σ) := by
+  unfold envCreate
+  refine SimAt.bind (sim_valueOf hR val) ?_
+  rintro a v s1 t1 hR1 ⟨rfl, hnr⟩
+  refine SimAt.bind (Q := fun _ _ => True) ?_ (fun _ _ s2 t2 hR2 _ => SimAt.pure hR2 rfl)
+  exact sim_storeSet hR1 e name hnr _ _ (fun f => ⟨rfl, rfl, rfl, rfl, rfl, rfl, rfl⟩)
+    (fun f => ⟨rfl, rfl, rfl, rfl, rfl, rfl, rfl⟩) (fun fs ft h1 h2 => by simp only [h1, h2])
+
+theorem sim_envStoreAt {σ : Sh} {s t : St} (hR : StR σ s t) (w e : Nat) (name : String) {v : Obj}
+    (hnr : notRef v = true) :
+    SimAt σ (envStoreAt (sh σ w) (sh σ e) name (ren σ v)) (envStoreAt w e name v) s t (QO σ) := by
+  unfold envStoreAt
+  refine sim_getFrame_bind hR e ?_
+  intro fs ft hte hfs hfr
+  have : lookupStore fs.store name = (lookupStore ft.store name).map (ren σ) := by
+    rw [hfr.store, lookupStore_ren]
+  rw [this]
+  refine SimAt.bind (sim_functionChanged hR w _) ?_
+  intro _ _ s1 t1 hR1 _
+  refine SimAt.bind (Q := fun _ _ => True) ?_ (fun _ _ s2 t2 hR2 _ => SimAt.pure hR2 rfl)
+  exact sim_storeSet hR1 e name hnr _ _ (fun f => ⟨rfl, rfl, rfl, rfl, rfl, rfl, rfl⟩)
+    (fun f => ⟨rfl, rfl, rfl, rfl, rfl, rfl, rfl⟩) (fun fs ft h1 h2 => by simp only [h1, h2])
+
+theorem updTarget_ren (σ : Sh) (e : Nat) (name : String) (found : Obj) :
+    updTarget (sh σ e) name (ren σ found) = (sh σ (updTarget e name found).1, (updTarget e name found).2) := by
+  cases found <;> rfl
+
+theorem sim_envUpdate {σ : Sh} {s t : St} (hR : StR σ s t) (e : Nat) (name : String) (found val : Obj) :
+    SimAt σ (envUpdate (sh σ e) name (ren σ found) (ren σ val)) (envUpdate e name found val) s t (QO σ) := by
+  unfold envUpdate
+  rw [updTarget_ren]
+  have hrest : ∀ (a v : Obj) s1 t1, StR σ s1 t1 → a = ren σ v → notRef v = true →
+      SimAt σ (envStoreAt (sh σ e) (sh σ (updTarget e name found).1) (updTarget e name found).2 a)
+        (envStoreAt e (updTarget e name found).1 (updTarget e name found).2 v) s1 t1 (QO σ) := by
+    intro a v s1 t1 hR1 ha hnr
+    subst ha
+    exact sim_envStoreAt hR1 e _ _ hnr
+  cases val with
+  | ref re rn =>
+    simp only [ren]
+    have := sim_valueOf hR (.ref re rn)
+    simp only [ren] at this
+    refine SimAt.bind this ?_
+    rintro a v s1 t1 hR1 ⟨rfl, hnr⟩
+    exact hrest _ v s1 t1 hR1 rfl hnr
+  | _ =>
+    all_goals
+      simp only [ren]
+      refine SimAt.bind_read (runM_pure _ s) (runM_pure _ t) ?_
+      exact hrest _ _ s t hR (by simp only [ren]) rfl
+
+theorem sim_setNoChecks {σ : Sh} {s t : St} (hR : StR σ s t) (e : Nat) (name : String) (val : Obj) (create : Bool) :
+    SimAt σ (setNoChecks (sh σ e) name (ren σ val) create) (setNoChecks e name val create) s t (QO σ) := by
+  unfold setNoChecks
+  refine SimAt.ite (fun _ => sim_envCreate hR e name val) (fun _ => ?_)
+  refine sim_getFrame_bind hR e ?_
+  intro fs ft hte hfs hfr
+  rw [hfr.store, lookupStore_ren]
+  cases hl : lookupStore ft.store name with
+  | some r =>
+    simp only [Option.map]
+    exact sim_envUpdate hR e name r val
+  | none =>
+    simp only [Option.map]
+    refine SimAt.bind (sim_makeRef hR e name) ?_
+    rintro a b s1 t1 hR1 rfl
+    cases b with
+    | none => exact sim_envCreate hR1 e name val
+    | some r =>
+      cases r with
+      | ref re rn =>
+        simp only [Option.map, ren]
+        refine SimAt.bind (sim_valueOf hR1 val) ?_
+        rintro a v s2 t2 hR2 ⟨rfl, hnr⟩
+        refine sim_getFrame_bind hR2 re ?_
+        intro fs3 ft3 _ _ hfr3
+        have : lookupStore fs3.store rn = (lookupStore ft3.store rn).map (ren σ) := by
+          rw [hfr3.store, lookupStore_ren]
+        rw [this]
+        refine SimAt.bind (sim_functionChanged hR2 e _) ?_
+        intro _ _ s3 t3 hR3 _
+        refine SimAt.bind (Q := fun _ _ => True) ?_ (fun _ _ s4 t4 hR4 _ => SimAt.pure hR4 rfl)
+        exact sim_storeSet hR3 re rn hnr _ _ (fun f => ⟨rfl, rfl, rfl, rfl, rfl, rfl, rfl⟩)
+          (fun f => ⟨rfl, rfl, rfl, rfl, rfl, rfl, rfl⟩) (fun fs ft _ h2 => h2)
+      | _ => all_goals exact sim_envCreate hR1 e name val
+
+theorem sim_createOrSet {σ : Sh} {s t : St} (hR : StR σ s t) (e : Nat) (name : String) (val : Obj) (create : Bool) :
+    SimAt σ (createOrSet (sh σ e) name (ren σ val) create) (createOrSet e name val create) s t (QO σ) := by
+  unfold createOrSet
+  dsimp only
+  have hrest : ∀ s1 t1, StR σ s1 t1 →
+      SimAt σ (do
+          let st ← get
+          if st.extNames.contains name = true then pure (Obj.error ("attempt to change internal function " ++ name))
+            else setNoChecks (sh σ e) name (ren σ val) create)
+        (do
+          let st ← get
+          if st.extNames.contains name = true then pure (Obj.error ("attempt to change internal function " ++ name))
+            else setNoChecks e name val create) s1 t1 (QO σ) := by
+    intro s1 t1 hR1
+    refine SimAt.bind_read (runM_get s1) (runM_get t1) ?_
+    rw [hR1.extNames]
+    exact SimAt.ite (fun _ => SimAt.pure hR1 rfl) (fun _ => sim_setNoChecks hR1 e name val create)
+  refine SimAt.ite (fun _ => ?_) (fun _ => hrest s t hR)
+  refine SimAt.bind (sim_envGet hR e name) ?_
+  rintro a b s1 t1 hR1 rfl
+  cases b with
+  | none => exact hrest s1 t1 hR1
+  | some old =>
+    simp only [Option.map, ren_typeNum]
+    have hfin : ∀ (same : Bool) s2 t2, StR σ s2 t2 →
+        SimAt σ (if (!same) = true then pure (Obj.error ("attempt to change constant " ++ name)) else do
+            let st ← get
+            if st.extNames.contains name = true then pure (Obj.error ("attempt to change internal function " ++ name))
+              else setNoChecks (sh σ e) name (ren σ val) create)
+          (if (!same) = true then pure (Obj.error ("attempt to change constant " ++ name)) else do
+            let st ← get
+            if st.extNames.contains name = true then pure (Obj.error ("attempt to change internal function " ++ name))
+              else setNoChecks e name val create) s2 t2 (QO σ) :=
+      fun same s2 t2 hR2 => SimAt.ite (fun _ => SimAt.pure hR2 rfl) (fun _ => hrest s2 t2 hR2)
+    refine SimAt.ite (fun _ => ?_) (fun _ => ?_)
+    · refine SimAt.bind_read (runM_pure _ s1) (runM_pure _ t1) ?_
+      exact hfin false s1 t1 hR1
+    · refine SimAt.bind (sim_valueOf hR1 old) ?_
+      rintro a o s2 t2 hR2 ⟨rfl, _⟩
+      refine SimAt.bind (sim_valueOf hR2 val) ?_
+      rintro a v s3 t3 hR3 ⟨rfl, _⟩
+      rw [cmp_ren, sameTypes_ren]
+      refine SimAt.bind (Q := fun a b => a = b) (SimAt.liftR hR3 (RelR.of_eq (f := id) (by cases cmp o v <;> rfl) (fun _ => rfl))) ?_
+      rintro c _ s4 t4 hR4 rfl
+      refine SimAt.bind_read (runM_pure _ s4) (runM_pure _ t4) ?_
+      exact hfin _ s4 t4 hR4
+
+theorem sim_envSet {σ : Sh} {s t : St} (hR : StR σ s t) (e : Nat) (name : String) (val : Obj) :
+    SimAt σ (envSet (sh σ e) name (ren σ val)) (envSet e name val) s t (QO σ) :=
+  sim_createOrSet hR e name val false
+
 end Grol.R
